@@ -40,9 +40,12 @@ CLAIMS = {
          "input); the parser's loop guards are regenerated from parser.go and pinned by a theorem. Parser termination and the "
          "program-or-error contract are decided by correspondence and oracle over exhaustive lexeme sequences and mutations.", "8.C08",
          "termination proof for the lexer model + translator-pinned loop guards + exhaustive lexeme-sequence oracle"),
- "C09": ("other", "Evaluator model marks every Go panic site with an explicit Panic outcome; untyped program generator and built-in "
-         "argument sweep; oracle: never PANIC/crash, errors carry a line. " + PENDING, "8.C09",
-         "model with explicit Panic outcomes + correspondence + never-panics oracle (theorems pending)"),
+ "C09": ("proof", "Theorem by mutual induction over the evaluator's fuel: on a well-formed program (no nil node where one is dereferenced, "
+         "dot keys are identifiers, component arguments are object literals) no expression, statement, block, loop or render of the model "
+         "reaches a Panic outcome, for every environment, data map and amount of fuel; operators and property access are total. The model marks "
+         "every Go panic site with an explicit Panic; built-ins have no panic outcome and their guards are compared with the code on boundary "
+         "counts and wrong-kind arguments. The hypothesis wf_program is extracted and evaluated on every parsed program of the run.", "8.C09",
+         "never-Panic theorem by mutual induction + extracted hypothesis check + correspondence on an untyped program generator"),
  "C10": ("proof", "Theorems: the model's evalString equals the specification escaper; its output has no raw < >, every & starts an "
          "entity, quotes are kept, unescape and raw() give back the literal exactly. Tied by correspondence over an exhaustive "
          "alphabet sweep in six contexts.", "8.C10", "induction over the literal with one-byte lookahead + correspondence"),
@@ -53,16 +56,26 @@ CLAIMS = {
          "extracted Coq specification as oracle + data-binding model correspondence (theorems pending)"),
  "C13": ("other", "Fault injection with the line known by construction; model lines = implementation lines. " + PENDING, "8.C13",
          "fault injection oracle + model correspondence (theorems pending)"),
- "C14": ("other", "Repetitions in-process and in fresh processes must agree with each other and with the (order-free) model. " + PENDING,
-         "8.C14", "repetition oracle + model correspondence (theorems pending)"),
- "C15": ("other", "Concurrent runs compared with the sequential baseline, race detector run. " + PENDING, "8.C15",
-         "concurrent/sequential oracle + race detector (theorems pending)"),
+ "C14": ("proof", "A Go map is an association list with distinct keys presented in an arbitrary permutation. Theorems: the key sort of two "
+         "presentations is the same list (strict total order on byte strings, uniqueness of sorted permutations), hence data binding, object "
+         "printing, object literals, component arguments, the first undefined insert and the first faulty file are independent of the "
+         "presentation. That the code sorts at exactly these sites is observed: repetitions in-process and in fresh processes must agree.", "8.C14",
+         "permutation-invariance theorems for every map consumer + repetition/fresh-process oracle"),
+ "C15": ("proof", "PARTIAL (the Go memory model and heap sharing are outside the model). Proved: on the call graph and footprint tables "
+         "regenerated from every non-test .go file on every run, nothing reachable from String/Response/EvaluateString/EvaluateFile assigns "
+         "a package-level variable, the only method called on one is the atomic store of the mode flag, and nothing reachable reads that "
+         "flag; generic theorem by induction over schedules: if no step changes what steps read, every call is in every interleaving where "
+         "it is alone. The check runs G goroutines of mixed renders against the sequential baseline, also under the race detector.", "8.C15",
+         "footprint lemmas over translator-generated call graph (vm_compute) + schedule-independence theorem + race-detector search"),
  "C16": ("proof", "Frame theorem on the API state machine: every render operation leaves templates, configuration and registry "
          "unchanged; by induction over histories an operation observes what it observes when issued first. Tied by correspondence on "
          "exhaustive short histories against a fresh-state baseline.", "8.C16",
          "frame property + induction over operation histories (fold_left) + correspondence"),
- "C17": ("other", "Response model + selection table, all debug x error-page x outcome combinations. " + PENDING, "8.C17",
-         "extracted Coq specification as oracle + Response model correspondence (theorems pending)"),
+ "C17": ("proof", "Theorems on the Response model: success writes the rendered page and returns no error; a failure returns the error and "
+         "shows the custom page (debug off) or the built-in page, never template output; the built-in page - regenerated from "
+         "default-error-page.tw every run and evaluated with path, line and message left symbolic - is ONE constant when debug is off "
+         "(non-interference: two different failures give the same body) and contains path, line and message when debug is on.", "8.C17",
+         "symbolic evaluation of the regenerated error page (vm_compute + reflection) + case analysis of Response + correspondence"),
  "C18": ("other", "Loader model over an abstract file system; tree/fault enumeration. " + PENDING, "8.C18",
          "extracted Coq specification as oracle + loader model correspondence (theorems pending)"),
  "C19": ("proof", "Invariant proved in Coq: the lexer's counters equal the pure position function at every reachable offset; "
